@@ -304,10 +304,18 @@ class Interp:
             return self.eq(a, b)
         if isinstance(op, ast.NotEq):
             return self.ne(a, b)
-        if isinstance(op, ast.Is):
-            return a is b
-        if isinstance(op, ast.IsNot):
-            return a is not b
+        if isinstance(op, (ast.Is, ast.IsNot)):
+            # True / False are singletons: identity of a symbolic bool with a bool is equality of
+            # truth values; with anything else it is false
+            if isinstance(a, SBool) or isinstance(b, SBool):
+                if isinstance(a, (SBool, bool)) and isinstance(b, (SBool, bool)):
+                    r = mkbool(sym.zbool(a) == sym.zbool(b))
+                else:
+                    r = False
+                if isinstance(op, ast.IsNot):
+                    return snot(r) if isinstance(r, SBool) else (not r)
+                return r
+            return (a is b) if isinstance(op, ast.Is) else (a is not b)
         if isinstance(op, ast.In):
             return self.contains(b, a)
         if isinstance(op, ast.NotIn):
